@@ -2180,6 +2180,8 @@ Proof.
   { destruct a as [|blob [|tract [|off [|len [|nt tries]]]]]; exact HP. }
   destruct (c =? 81) eqn:C81; [apply Z.eqb_eq in C81; subst c; discriminate|].
   destruct (c =? 82); [exact HP|].
+  destruct (c =? 84); [exact HP|].
+  destruct (c =? 83); [exact HP|].
   destruct (c =? 31).
   { destruct a as [|blob [|]]; try exact HP. destruct (Cluster.Model.zget _ _); exact HP. }
   exact HP.
